@@ -255,6 +255,11 @@ def validate(ctx, trace, chunk_units=80):
             ev = json.loads(part[idx - 1])
             ctx.violation(DEFECT_SWALLOW, "recorded rows() of unit %s decrease within a sequence (end_sequence swallowed in tombstone mode): %s"
                           % (hdr_of(k).get("tag"), json.dumps(ev["rows"])[:400]), {"header": hdr_of(k), "rows": ev["rows"]}, None)
+        # units of ill-formed programs that the as-coded model does not explain (only the any-input clause applies)
+        for idx in sorted({int(body) for tag, body in res.prints if tag == "DRIFT"}):
+            k = unit_of(idx)
+            ctx.drift.append({"what": "recorded event of an ill-formed unit differs from the as-coded model (any-input clause still checked)",
+                              "unit": hdr_of(k).get("tag"), "event": json.loads(part[idx - 1]).get("ev")})
         if res.error is None:
             ctx.cov["traces_validated_against_impl"] += len(part)
             pos += chunk_units
